@@ -58,3 +58,77 @@ Proof.
     + apply contains_spec in Cq. destruct Cq as [Fq _]. rewrite Fq.
       unfold route, mask_to in HR. congruence.
 Qed.
+
+(* ------------------------------------------------------------------ across pools *)
+(* validateBGPAdvPerPool looks at one pool at a time.  Across pools (or across two address
+   entries of one pool) the clause still holds for entries that are one CIDR: the aggregate of
+   an address of such an entry stays inside it, so if two entries yield the same aggregate
+   route each contains the other's address - they share addresses, which an accepted
+   configuration excludes for two different entries (accepted_disjoint). *)
+Theorem cidr_entries_share_no_route iter r out p1 p2 q1 q2 b1 b2 x1 x2 :
+  pools_for iter r = Some out -> In p1 (po_pools out) -> In p2 (po_pools out) ->
+  In [q1] (p_per_addr p1) -> In [q2] (p_per_addr p2) -> In b1 (p_bgp p1) -> In b2 (p_bgp p2) ->
+  contains q1 x1 = true -> contains q2 x2 = true -> route b1 x1 = route b2 x2 ->
+  contains q1 x2 = true /\ contains q2 x1 = true.
+Proof.
+  intros H Hp1 Hp2 Hq1 Hq2 Hb1 Hb2 C1 C2 R.
+  destruct (pools_for_accepted _ _ _ H) as (ps0 & ps2 & A).
+  pose proof (af_ok _ _ _ _ A) as OK. rewrite Forall_forall in OK.
+  apply (Permutation_in _ (af_perm _ _ _ _ A)) in Hp1, Hp2.
+  destruct (OK _ Hp1) as [_ G1]. destruct (OK _ Hp2) as [_ G2]. rewrite Forall_forall in G1, G2.
+  destruct (G1 _ Hb1) as (A4 & A6 & L1). destruct (G2 _ Hb2) as (B4 & B6 & L2).
+  specialize (L1 q1 [] Hq1). specialize (L2 q2 [] Hq2). cbn [lowest fold_left] in L1, L2.
+  assert (F1 : pfam q1 = ip_fam x1) by (apply contains_spec in C1; tauto).
+  assert (F2 : pfam q2 = ip_fam x2) by (apply contains_spec in C2; tauto).
+  unfold route in R. split.
+  - eapply (aggregate_contained q1 x1 (agg_of b1 (pfam q1)) x2); [exact L1|apply agg_of_le_width; assumption|exact C1|].
+    rewrite F1, R. apply mask_to_contains_self.
+  - eapply (aggregate_contained q2 x2 (agg_of b2 (pfam q2)) x1); [exact L2|apply agg_of_le_width; assumption|exact C2|].
+    rewrite F2, <- R. apply mask_to_contains_self.
+Qed.
+
+Corollary disjoint_cidr_entries_share_no_route iter r out p1 p2 q1 q2 b1 b2 x1 x2 :
+  pools_for iter r = Some out -> In p1 (po_pools out) -> In p2 (po_pools out) ->
+  In [q1] (p_per_addr p1) -> In [q2] (p_per_addr p2) -> In b1 (p_bgp p1) -> In b2 (p_bgp p2) ->
+  disjoint q1 q2 -> contains q1 x1 = true -> contains q2 x2 = true -> route b1 x1 <> route b2 x2.
+Proof.
+  intros H Hp1 Hp2 Hq1 Hq2 Hb1 Hb2 D C1 C2 R.
+  destruct (cidr_entries_share_no_route _ _ _ _ _ _ _ _ _ _ _ H Hp1 Hp2 Hq1 Hq2 Hb1 Hb2 C1 C2 R) as [X _].
+  exact (D x2 X C2).
+Qed.
+
+(* ... and fails for range-written pools: 0.0.0.10-0.0.0.15 and 0.0.0.4-0.0.0.9, one
+   advertisement each (aggregation length 30, local preference 100 / 200, every peer), one node:
+   accepted, and both announce 0.0.0.8/30 from node 1 - with two local preferences.
+   Reproduced on the real config.For (same result). *)
+Definition xp_pool n a : pool_cr :=
+  {| pl_name := n; pl_labels := []; pl_addrs := [a]; pl_avoid := false; pl_auto := true; pl_alloc := None |}.
+Definition xp_adv n lp pools : bgp_cr :=
+  {| bg_name := n; bg_agg4 := 30; bg_agg6 := 128; bg_lp := lp; bg_comms := []; bg_peers := [];
+     bg_pools := pools; bg_psels := []; bg_nsels := [] |}.
+Definition cross_pool_witness : resources :=
+  {| r_pools := [xp_pool 1 (ARange (V4 10) (V4 15)); xp_pool 2 (ARange (V4 4) (V4 9))]; r_l2 := [];
+     r_bgp := [xp_adv 1 100 [1]; xp_adv 2 200 [2]];
+     r_nodes := [{| nd_name := 1; nd_labels := []; nd_ips := [V4 1000] |}]; r_nss := [];
+     r_peers := []; r_bfds := []; r_comms := [] |}.
+
+Theorem localpref_cross_pool_refuted :
+  exists r out p1 p2 b1 b2 x1 x2 n pr,
+    pools_for (fun l => l) r = Some out /\ In p1 (po_pools out) /\ In p2 (po_pools out) /\ p_name p1 <> p_name p2 /\
+    In b1 (p_bgp p1) /\ In b2 (p_bgp p2) /\ announces p1 b1 x1 n pr /\ announces p2 b2 x2 n pr /\
+    route b1 x1 = route b2 x2 /\ ba_lp b1 <> ba_lp b2.
+Proof.
+  exists cross_pool_witness.
+  destruct (pools_for (fun l => l) cross_pool_witness) as [out|] eqn:E; [|vm_compute in E; discriminate].
+  vm_compute in E. injection E as <-.
+  eexists. eexists. eexists. eexists. eexists. exists (V4 10), (V4 8), 1, 7.
+  split; [reflexivity|]. split; [left; reflexivity|]. split; [right; left; reflexivity|].
+  split; [cbn; discriminate|]. split; [left; reflexivity|]. split; [left; reflexivity|].
+  split; [|split; [|split]].
+  - split; [|split; [left; reflexivity|left; reflexivity]].
+    eexists. split; [left; reflexivity|]. vm_compute. reflexivity.
+  - split; [|split; [left; reflexivity|left; reflexivity]].
+    eexists. split; [right; left; reflexivity|]. vm_compute. reflexivity.
+  - vm_compute. reflexivity.
+  - cbn. discriminate.
+Qed.
